@@ -13,6 +13,8 @@ package weshnet
 import (
 	"context"
 	"fmt"
+	"sort"
+	"strings"
 	"sync"
 	"testing"
 	"time"
@@ -24,7 +26,11 @@ import (
 
 	"berty.tech/weshnet/v2/internal/vharness"
 	"berty.tech/weshnet/v2/pkg/protocoltypes"
+	"berty.tech/weshnet/v2/pkg/secretstore"
 )
+
+// the number of message keys the receiver precomputes beyond the last opened counter (the model's W)
+const c08windowKeys = secretstore.PrecomputeMessageKeyCount
 
 func TestVerifC08Window(t *testing.T) {
 	out := vharness.Open()
@@ -180,6 +186,7 @@ func TestVerifC08Window(t *testing.T) {
 			ms.ProcessMessageQueueForDevicePK(ctx, w.devRaw[0])
 		}
 		note := ""
+		var steps []string // (delivered, parked) each time the loop has come to rest after a paced arrival
 		for i, idx := range order {
 			if i == registerAt {
 				register()
@@ -193,6 +200,11 @@ func TestVerifC08Window(t *testing.T) {
 				note = fmt.Sprintf("10 s after arrival %d (message %d) %d of the %d arrived entries are neither delivered nor parked (%d delivered, %d parked): lost, or the pipeline never comes to rest", i, idx, arrived-total-parked(), arrived, total, parked())
 				mu.Unlock()
 				break
+			}
+			if paced && (batchFrom < 0 || i < batchFrom) {
+				mu.Lock()
+				steps = append(steps, vharness.Pair(vharness.N(uint64(total)), vharness.N(uint64(parked()))))
+				mu.Unlock()
 			}
 		}
 		if registerAt >= len(order) {
@@ -238,6 +250,7 @@ func TestVerifC08Window(t *testing.T) {
 			}
 			mu.Unlock()
 		}
+		finalParked := parked()
 		cancel()
 		<-loopDone
 		sub.Close()
@@ -246,8 +259,32 @@ func TestVerifC08Window(t *testing.T) {
 			first = first[:6]
 		}
 		desc := fmt.Sprintf("messages=%d announce-after=%d order=%s (first %v) paced=%v register-before-arrival=%d", n, ann, mode, first, paced, registerAt)
+		// the same history for the model with the key window (Model.C08_Window): counters in arrival order,
+		// the observations at rest, the counters delivered at the end and what stays parked
+		coq := ""
+		if w.enc[0] != nil && (note == "" || !strings.HasPrefix(note, "10 s after")) {
+			ctrs := make([]uint64, len(order))
+			for i, idx := range order {
+				ctrs[i] = w.find(0, idx).counter
+			}
+			var fin []uint64
+			mu.Lock()
+			for _, m := range w.msgs {
+				for k := 0; k < delivered[m.index]; k++ {
+					fin = append(fin, m.counter)
+				}
+			}
+			mu.Unlock()
+			sort.Slice(fin, func(i, j int) bool { return fin[i] < fin[j] })
+			bf := len(order)
+			if batchFrom >= 0 {
+				bf = batchFrom
+			}
+			coq = fmt.Sprintf("CWindow %d %d %s %d %v %d %s %s %d", c08windowKeys, w.first[0]-1, vharness.Ns(ctrs), registerAt, paced, bf,
+				vharness.List(steps), vharness.Ns(fin), finalParked)
+		}
 		out.Emit(vharness.Case{
-			Kind: "window", Key: fmt.Sprintf("%d|%s", ci, desc), Nontrivial: n > 100 && expect > 100, OracleOK: note == "", Note: note + " [" + desc + "]",
+			Kind: "window", Coq: coq, Key: fmt.Sprintf("%d|%s", ci, desc), Nontrivial: n > 100 && expect > 100, OracleOK: note == "", Note: note + " [" + desc + "]",
 			Sig:    "message pipeline: decryptable message never delivered",
 			Replay: map[string]any{"messages": n, "announce_after": ann, "order": order, "paced": paced, "register_before_arrival": registerAt},
 		})
